@@ -28,6 +28,20 @@
 (*   Tune        warm-up changed the scale (new lattice scale)               *)
 (*   SaveLoad    get_state -> fresh sampler of the same configuration ->     *)
 (*               set_state (stateful interface only)                         *)
+(*   Abort(y,k,mode)  the transition towards y aborts at its k-th target     *)
+(*               evaluation (the evaluation raises; RW/PCN: the log-density /*)
+(*               likelihood at y; CW: the evaluation of component k of the   *)
+(*               sweep; MALA: k = 1 log-density at y, k = 2 drift at y).     *)
+(*               Intended design: an aborted transition leaves the pair      *)
+(*               (point, caches) COHERENT.  For the component-wise sweep the *)
+(*               components decided before the failing evaluation may be kept*)
+(*               (mode "keep": point and cache are those of the partial      *)
+(*               sweep) or the whole sweep is dropped (mode "rollback": point*)
+(*               and cache of the sweep start, kept in `sw`); both are valid *)
+(*               kernel states, the code may follow either.  The claim is    *)
+(*               coherence + Metropolis-Hastings decisions afterwards, not   *)
+(*               "state unchanged".  Whether the exception reaches the caller*)
+(*               is not modelled (neither required nor forbidden).           *)
 (* CW performs d Propose/Decide pairs (component comp = 1..d) per transition.*)
 (*                                                                         *)
 (* Proposal mechanisms (noise xi ~ N(mu, I) pushed through an affine map):  *)
@@ -44,7 +58,11 @@
 (*   AcceptsNaN                accept test is  log u <= min(0, r)  only:    *)
 (*                             min(0, NaN) = 0, a NaN proposal is accepted  *)
 (*   Mutation (non-vacuity of the invariants, not a behaviour of the code): *)
-(*     "StaleGradOnAccept", "LoadDropsCache", "RejectMoves"                 *)
+(*     "StaleGradOnAccept", "LoadDropsCache", "RejectMoves",                *)
+(*     "AbortHalfUpdated"  the sweep writes the point component by component*)
+(*                         and the cache only at its end: an aborted sweep  *)
+(*                         leaves the advanced point with the cache of the  *)
+(*                         sweep start                                      *)
 (***************************************************************************)
 EXTENDS Mat, FiniteSets, TLC, Json
 
@@ -56,6 +74,7 @@ CONSTANTS Dims,          \* subset of {1, 2}
           PriorMeans,    \* prior means m of the PCN configurations (subset of {0, 1})
           MaxT1, MaxT2,  \* transitions per behaviour for d = 1 / d = 2
           MaxTunes, MaxLoads,
+          MaxAborts,     \* aborted transitions per behaviour (0: the action Abort is off)
           AllStarts,     \* TRUE: every finite lattice point is an initial point; FALSE: the origin
           Hist,          \* TRUE: keep the behaviour in `prog` (emission); FALSE: no history (deep exhaustive run)
           Emit,
@@ -68,12 +87,13 @@ VARIABLES cfg,      \* [k, iface, d, tgt, sc, m, x0]
           pending,  \* proposal awaiting decision (record) or <<>>
           phase,    \* "idle" | "proposed"
           comp,     \* CW: component updated next (1..d); others: 1
-          nT, nTune, nLoad,
-          last,     \* "init" | "decide" | "tune" | "saveload" | "propose"
+          nT, nTune, nLoad, nAbort,
+          sw,       \* <<point, cached log-density>> at the start of the transition (sweep) in progress
+          last,     \* "init" | "decide" | "tune" | "saveload" | "propose" | "abort"
           lastAcc,  \* -1 | 0 | 1 : outcome of the last Decide
           prog      \* history of actions with the state predicted after each
 
-vars == <<cfg, x, c_lp, c_grad, c_lik, scale, pending, phase, comp, nT, nTune, nLoad, last, lastAcc, prog>>
+vars == <<cfg, x, c_lp, c_grad, c_lik, scale, pending, phase, comp, nT, nTune, nLoad, nAbort, sw, last, lastAcc, prog>>
 
 \* ------------------------------ extended rationals ------------------------------
 NaN    == <<0, 0>>
@@ -210,7 +230,8 @@ Log(e) == IF Hist THEN Append(prog, e) ELSE prog
 Init == /\ cfg \in Configs
         /\ x = cfg.x0 /\ c_lp = CLp(cfg, cfg.x0) /\ c_grad = CGrad(cfg, cfg.x0) /\ c_lik = CLik(cfg, cfg.x0)
         /\ scale = cfg.sc /\ pending = <<>> /\ phase = "idle" /\ comp = 1
-        /\ nT = 0 /\ nTune = 0 /\ nLoad = 0 /\ last = "init" /\ lastAcc = -1 /\ prog = <<>>
+        /\ nT = 0 /\ nTune = 0 /\ nLoad = 0 /\ nAbort = 0 /\ sw = <<cfg.x0, CLp(cfg, cfg.x0)>>
+        /\ last = "init" /\ lastAcc = -1 /\ prog = <<>>
 
 Moves == IF cfg.k = "CW" THEN {y \in X(cfg.d) : \A i \in 1..cfg.d : i # comp => y[i] = x[i]} ELSE X(cfg.d)
 
@@ -229,7 +250,7 @@ Propose(y) ==
           /\ prog' = Log([a |-> "p", j |-> IF cfg.k = "CW" THEN comp ELSE 0, y |-> y, xi |-> xi, tv |-> tv, gy |-> gy, r |-> r,
                           yraw |-> yraw])
     /\ phase' = "proposed" /\ last' = "propose"
-    /\ UNCHANGED <<cfg, x, c_lp, c_grad, c_lik, scale, comp, nT, nTune, nLoad, lastAcc>>
+    /\ UNCHANGED <<cfg, x, c_lp, c_grad, c_lik, scale, comp, nT, nTune, nLoad, nAbort, sw, lastAcc>>
 
 Classes == IF ~Finite(pending.tv) THEN {"Any"}
            ELSE IF RLt(pending.r, Zero) THEN {"Below", "Above"} ELSE {"Below"}
@@ -246,10 +267,11 @@ Decide(cls) ==
           /\ lastAcc' = IF accept THEN 1 ELSE 0
           /\ comp' = IF sweepEnd THEN 1 ELSE comp + 1
           /\ nT' = IF sweepEnd THEN nT + 1 ELSE nT
+          /\ sw' = IF sweepEnd THEN <<nx, nlp>> ELSE sw
           /\ prog' = Log([a |-> "d", cls |-> cls, acc |-> IF accept THEN 1 ELSE 0, x |-> nx, clp |-> nlp, cgrad |-> ngr,
                           clik |-> nlk, fin |-> sweepEnd])
     /\ pending' = <<>> /\ phase' = "idle" /\ last' = "decide"
-    /\ UNCHANGED <<cfg, scale, nTune, nLoad>>
+    /\ UNCHANGED <<cfg, scale, nTune, nLoad, nAbort>>
 
 \* warm-up adapted the scale (the transition just made was a warm-up step); the new scale is again a lattice scale
 Tune ==
@@ -257,7 +279,7 @@ Tune ==
     /\ scale' = NextScale(cfg.k, scale)
     /\ nTune' = nTune + 1 /\ last' = "tune"
     /\ prog' = Log([a |-> "t", sc |-> scale', sv |-> SV(scale', cfg.d)])
-    /\ UNCHANGED <<cfg, x, c_lp, c_grad, c_lik, pending, phase, comp, nT, nLoad, lastAcc>>
+    /\ UNCHANGED <<cfg, x, c_lp, c_grad, c_lik, pending, phase, comp, nT, nLoad, nAbort, sw, lastAcc>>
 
 \* get_state -> freshly constructed sampler of the same configuration (initialised at x0) -> set_state
 SaveLoad ==
@@ -266,13 +288,40 @@ SaveLoad ==
        IN /\ x' = x /\ scale' = scale /\ c_grad' = c_grad
           /\ c_lp'  = IF "c_lp"  \in dropped THEN CLp(cfg, cfg.x0)  ELSE c_lp
           /\ c_lik' = IF "c_lik" \in dropped THEN CLik(cfg, cfg.x0) ELSE c_lik
+          /\ sw' = <<x', c_lp'>>
     /\ nLoad' = nLoad + 1 /\ last' = "saveload"
     /\ prog' = Log([a |-> "s", x |-> x', clp |-> c_lp', cgrad |-> c_grad', clik |-> c_lik', sv |-> SV(scale, cfg.d)])
-    /\ UNCHANGED <<cfg, pending, phase, comp, nT, nTune, lastAcc>>
+    /\ UNCHANGED <<cfg, pending, phase, comp, nT, nTune, nAbort, lastAcc>>
+
+\* ------------------------------ aborted transitions ------------------------------
+\* target evaluations of one transition, in the order the transition makes them
+NEvals(c) == CASE c.k = "CW" -> c.d [] c.k = "MALA" -> 2 [] OTHER -> 1
+EvalKind(c, k) == CASE c.k = "PCN" -> "lik" [] c.k = "MALA" /\ k = 2 -> "grad" [] OTHER -> "lp"
+\* the kernel states an aborted transition may leave: the partial sweep (point and cache after the components decided
+\* so far) and the sweep start.  They coincide unless a component of the sweep in progress has been accepted.
+AbortStates == IF <<x, c_lp>> = sw THEN << [x |-> x, clp |-> c_lp] >>
+               ELSE << [x |-> x, clp |-> c_lp], [x |-> sw[1], clp |-> sw[2]] >>
+
+\* the transition that would propose y aborts at its k-th evaluation (a following transition must fit: nT < MaxT)
+Abort(y, k, mode) ==
+    /\ phase = "idle" /\ nT < MaxT(cfg) /\ nAbort < MaxAborts
+    /\ y \in Moves /\ y # x
+    /\ k \in 1..NEvals(cfg) /\ (cfg.k = "CW" => k = comp)
+    /\ mode \in {"keep", "rollback"} /\ (mode = "rollback" => <<x, c_lp>> # sw)
+    /\ LET half == Mutation = "AbortHalfUpdated"
+           nx   == IF mode = "keep" THEN x ELSE sw[1]
+           nlp  == IF mode = "keep" /\ ~half THEN c_lp ELSE sw[2]     \* half: the point is written, the cache is not
+       IN /\ x' = nx /\ c_lp' = nlp /\ sw' = <<nx, nlp>>
+          /\ prog' = Log([a |-> "x", j |-> IF cfg.k = "CW" THEN comp ELSE 0, k |-> k, ev |-> EvalKind(cfg, k), y |-> y,
+                          xi |-> Noise(cfg, scale, x, y), mode |-> mode, x |-> nx, clp |-> nlp, cgrad |-> c_grad,
+                          clik |-> c_lik, alt |-> AbortStates])
+    /\ comp' = 1 /\ nAbort' = nAbort + 1 /\ last' = "abort" /\ lastAcc' = -1
+    /\ UNCHANGED <<cfg, c_grad, c_lik, scale, pending, phase, nT, nTune, nLoad>>
 
 Next == \/ \E y \in X(cfg.d) : Propose(y)
         \/ \E cls \in {"Below", "Above", "Any"} : Decide(cls)
         \/ Tune \/ SaveLoad
+        \/ \E y \in X(cfg.d), k \in 1..2, mode \in {"keep", "rollback"} : Abort(y, k, mode)
 
 Spec == Init /\ [][Next]_vars
 
@@ -289,7 +338,8 @@ DetailedBalance ==
         IN /\ RTrue(cfg, scale, y, x) = RNeg(rt)
            /\ RSub(Min0(pending.r), Min0(rb)) = rt
 
-\* every cache describes the current point under the current target - in every state
+\* every cache describes the current point under the current target - in every state (also mid-sweep and after an
+\* aborted transition)
 CacheCoherent == /\ c_lp = CLp(cfg, x) /\ c_grad = CGrad(cfg, x) /\ c_lik = CLik(cfg, x)
 
 \* the chain never sits on a point whose log-density is NaN / -inf (inductive: the initial point is finite)
@@ -313,6 +363,6 @@ Emitted ==
     /\ (Emit /\ last = "init") =>
           PrintT("@@CASE " \o ToJson([kind |-> "root", cfg |-> cfg, sv |-> SV(cfg.sc, cfg.d), clp |-> c_lp, cgrad |-> c_grad,
                                       clik |-> c_lik, rows |-> Rows(cfg)]) \o " @@END")
-    /\ (Emit /\ Hist /\ Terminal) =>
+    /\ (Emit /\ Hist /\ Terminal /\ nAbort = MaxAborts) =>
           PrintT("@@CASE " \o ToJson([kind |-> "beh", cfg |-> cfg, prog |-> prog]) \o " @@END")
 =============================================================================
